@@ -1,21 +1,25 @@
-import subprocess, os, sys, json, shutil
-BASE=os.environ.get('C08_BASE', '/work/repo-c08')
-M='/work/repo-c08m'
+"""Self-test of the C09 check: mutants of /repo HEAD + fixes/C09-F55.patch + fixes/C09-F110.patch in a
+scratch worktree (usage: /venv/bin/python harness/c09_mutants.py [N1 N3 ...])."""
+import subprocess, os, sys, json
+VERIF = os.path.dirname(os.path.dirname(os.path.abspath(__file__)))
+M = os.environ.get('C09_MUT', '/work/repo-p0809-m')
+BASE_PATCHES = [VERIF + '/fixes/C09-F55.patch', VERIF + '/fixes/C09-F110.patch']
+B = 'pyglove/core/symbolic/base.py'; L = 'pyglove/core/symbolic/list.py'; D = 'pyglove/core/symbolic/dict.py'
 MUTS = {
- 'N1-sort-ascending': ('pyglove/core/symbolic/base.py', """                                  key=lambda x: x[0].sym_path,
+ 'N1-sort-ascending': (B, """                                  key=lambda x: x[0].sym_path,
                                   reverse=True):""", """                                  key=lambda x: x[0].sym_path,
                                   reverse=False):"""),
- 'N2-absolute-path': ('pyglove/core/symbolic/base.py', "          relative_path = update.path - target.sym_path", "          relative_path = update.path"),
- 'N3-no-missing-reset': ('pyglove/core/symbolic/base.py', """      target._set_raw_attr('_sym_missing_values', None)     # pylint: disable=protected-access
+ 'N2-absolute-path': (B, "          relative_path = update.path - target.sym_path", "          relative_path = update.path"),
+ 'N3-no-missing-reset': (B, """      target._set_raw_attr('_sym_missing_values', None)     # pylint: disable=protected-access
       target._set_raw_attr('_sym_nondefault_values', None)  # pylint: disable=protected-access
       target._on_change(updates)""", """      target._set_raw_attr('_sym_nondefault_values', None)  # pylint: disable=protected-access
       target._on_change(updates)"""),
- 'N4-stop-after-first-target': ('pyglove/core/symbolic/base.py', """      if target is self and not notify_parents:
+ 'N4-stop-after-first-target': (B, """      if target is self and not notify_parents:
         break""", """      break"""),
- 'N5-no-reset-on-skip': ('pyglove/core/symbolic/base.py', """    else:
+ 'N5-no-reset-on-skip': (B, """    else:
       self._reset_content_caches(updates)
     return self""", """    return self"""),
- 'N6-dict-setitem-ignores-flag': ('pyglove/core/symbolic/dict.py', """    update = self._set_item_without_permission_check(key, value)
+ 'N6-dict-setitem-ignores-flag': (D, """    update = self._set_item_without_permission_check(key, value)
     if flags.is_change_notification_enabled() and update:
       self._notify_field_updates([update])
 
@@ -24,35 +28,74 @@ MUTS = {
       self._notify_field_updates([update])
 
   def __setattr__"""),
- 'N7-no-nondefault-reset': ('pyglove/core/symbolic/base.py', """      target._set_raw_attr('_sym_nondefault_values', None)  # pylint: disable=protected-access
-      target._on_change(updates)""", """      target._on_change(updates)"""),
+ 'N8-insert-reports-old-occupant': (L, """    old_value = pg_typing.MISSING_VALUE
+    # Replace an existing value.
+    if index < len(self) and not should_insert:""", """    old_value = pg_typing.MISSING_VALUE
+    if index < len(self) and should_insert:
+      old_value = list.__getitem__(self, index)
+    # Replace an existing value.
+    if index < len(self) and not should_insert:"""),
+ 'N9-del-slice-ascending-positions-shift': (L, """      indices = sorted(range(*self._parse_slice(index)), reverse=True)""", """      indices = sorted(range(*self._parse_slice(index)), reverse=True)
+      indices = [i - k for k, i in enumerate(sorted(indices))]"""),
+ 'N10-clear-reports-nothing-to-ancestors': (L, """              old_value, pg_typing.MISSING_VALUE))
+    if flags.is_change_notification_enabled() and updates:
+      self._notify_field_updates(updates)
+
+  def sort(""", """              old_value, pg_typing.MISSING_VALUE))
+    if flags.is_change_notification_enabled() and updates:
+      self._notify_field_updates(updates, notify_parents=False)
+
+  def sort("""),
+ 'N11-reverse-reports-every-position': (L, """      if new_value is not old_value:
+        updates.append(""", """      if True:
+        updates.append("""),
+ 'N12-popitem-reports-wrong-old': (D, """            utils.KeyPath(key, self.sym_path), self._update_target, None,
+            value, pg_typing.MISSING_VALUE)""", """            utils.KeyPath(key, self.sym_path), self._update_target, None,
+            pg_typing.MISSING_VALUE, pg_typing.MISSING_VALUE)"""),
+ 'N13-extended-slice-negative-step-not-reversed': (L, """        replacements.reverse()
+        start, step = start + (slice_size - 1) * step, -step""", """        start, step = start + (slice_size - 1) * step, -step"""),
+ 'N14-pop-notifies-twice': (L, """    with flags.allow_writable_accessors(True):
+      del self[index]
+    return value""", """    with flags.allow_writable_accessors(True):
+      del self[index]
+    if flags.is_change_notification_enabled():
+      self._notify_field_updates([base.FieldUpdate(self.sym_path + index, self, None, value, pg_typing.MISSING_VALUE)])
+    return value"""),
 }
 only = sys.argv[1:]
-res = {}
 for name, (path, old, new) in MUTS.items():
   if only and name.split('-')[0] not in only: continue
   subprocess.run(['git','-C','/repo','worktree','remove','--force',M],capture_output=True)
   subprocess.run(['git','-C','/repo','worktree','add',M,'HEAD'],capture_output=True,check=True)
-  subprocess.run('git -C %s diff | git -C %s apply' % (BASE, M), shell=True, check=True)
+  for bp in BASE_PATCHES:
+    subprocess.run(['git','-C',M,'apply',bp],check=True)
   fp=os.path.join(M,path); s=open(fp).read()
   assert old in s, name
   open(fp,'w').write(s.replace(old,new,1))
   imp = subprocess.run(['/venv/bin/python','-c','import pyglove'],cwd=M,capture_output=True)
   env=dict(os.environ, VERIF_REPO=M)
-  for f in os.listdir('/work/verif-c08/replays'):
-    if f.startswith('C09'): os.remove('/work/verif-c08/replays/'+f)
-  p=subprocess.run(['./check','C09'],cwd='/work/verif-c08',env=env,capture_output=True,text=True)
+  for f in os.listdir(VERIF+'/replays'):
+    if f.startswith('C09'): os.remove(VERIF+'/replays/'+f)
+  p=subprocess.run(['./check','C09'],cwd=VERIF,env=env,capture_output=True,text=True)
   lines=[l for l in p.stdout.split('\n') if l.startswith(('VIOLATION','BROKEN','FAIL','OK'))]
-  reps=sorted(f for f in os.listdir('/work/verif-c08/replays') if f.startswith('C09'))
+  reps=sorted(f for f in os.listdir(VERIF+'/replays') if f.startswith('C09'))
   rr=[]
-  for r in reps:
-    j=json.load(open('/work/verif-c08/replays/'+r))
-    a=subprocess.run(['./check','C09','--replay','replays/'+r],cwd='/work/verif-c08',env=env,capture_output=True,text=True).returncode
-    b=subprocess.run(['./check','C09','--replay','replays/'+r],cwd='/work/verif-c08',env=dict(os.environ,VERIF_REPO=BASE),capture_output=True,text=True).returncode
-    rr.append((r,j.get('kind'),j.get('signature'),'mutant-exit',a,'clean-exit',b))
+  for r in reps[:4]:
+    j=json.load(open(VERIF+'/replays/'+r))
+    a=subprocess.run(['./check','C09','--replay','replays/'+r],cwd=VERIF,env=env,capture_output=True,text=True).returncode
+    rr.append((r,j.get('kind'),j.get('signature'),'mutant-exit',a))
+  # the same replays on the clean patched base
+  subprocess.run(['git','-C',M,'checkout','.'],capture_output=True)
+  for bp in BASE_PATCHES:
+    subprocess.run(['git','-C',M,'apply',bp],check=True)
+  rr2=[]
+  for r in reps[:4]:
+    b=subprocess.run(['./check','C09','--replay','replays/'+r],cwd=VERIF,env=env,capture_output=True,text=True).returncode
+    rr2.append(b)
   print('==',name,'import ok' if imp.returncode==0 else 'IMPORT FAILS','exit',p.returncode)
-  for l in lines[:8]: print('   ',l[:220])
-  for x in rr: print('   ',x)
+  for l in lines[:5]: print('   ',l[:200])
+  for x, b in zip(rr, rr2): print('   ',x,'clean-exit',b)
   sys.stdout.flush()
 subprocess.run(['git','-C','/repo','worktree','remove','--force',M],capture_output=True)
-subprocess.run(['/venv/bin/python','-m','translate.t_c09'],cwd='/work/verif-c08',env=dict(os.environ,VERIF_REPO=BASE),capture_output=True)
+for f in os.listdir(VERIF+'/replays'):
+  if f.startswith('C09'): os.remove(VERIF+'/replays/'+f)
